@@ -108,6 +108,7 @@ LOADER_CFG = """SPECIFICATION LSpec
 CONSTANTS MaxLoads = {n}
   PrefixIds = {prefixes}
   KnownDev = {known}
+  WithIntro = {intro}
 INVARIANTS AlwaysValid AsIfNeverHappened Emit
 PROPERTIES Atomic
 CHECK_DEADLOCK FALSE
@@ -127,9 +128,9 @@ def run_c14(ctx):
     plans = [(2, ["p0", "p1", "p2", "p3"])] if ctx.tier == "quick" else [(3, ["p0", "p1"]), (2, ["p2", "p3"])]
     n = max(p[0] for p in plans)
     for k, prefixes in plans:
-        res = vlib.run_tlc(ctx, "MCLoader", LOADER_CFG.format(n=k, prefixes=tlaset(prefixes), known=tlaset(sorted(devs))), timeout=3400, xss="64m")
+        res = vlib.run_tlc(ctx, "MCLoader", LOADER_CFG.format(n=k, prefixes=tlaset(prefixes), known=tlaset(sorted(devs)), intro="TRUE"), timeout=3400, xss="64m")
         vlib.require_clean(res, "MCLoader")
-        loadhist(ctx, res.vecs, "histories-%d-%s" % (k, "".join(prefixes)), {"verdict", "atomic", "schema"}, devs)
+        loadhist(ctx, res.vecs, "histories-%d-%s" % (k, "".join(prefixes)), {"verdict", "atomic", "schema", "intro"}, devs, extra=["-intro"])
     record_and_judge(ctx, devs, 400 if ctx.tier == "quick" else 6000)
     ctx.exhaustive = True
     ctx.rule = ("every history of %d loads over the %d documents of spec/LoadUniverse.tla (12 valid ones incl. extend and schema blocks, 15 failing ones: "
@@ -142,7 +143,7 @@ def run_c14(ctx):
 
 def run_c16(ctx):
     devs = known_devs()
-    allsets = ["s1", "s2", "s3", "s4", "s5", "s6", "s7", "s8"]
+    allsets = ["s1", "s2", "s3", "s4", "s5", "s6", "s7", "s8", "s9"]
     # quick: the 6-definition set s8 and the 5-definition sets dominate the cost; permutations are thinned below
     # quick: every set, every extend-move and every cut pattern stays represented; the arrangements replayed are thinned
     keep = (lambda i: i % 8 == ctx.seed % 8) if ctx.tier == "quick" else None
@@ -192,10 +193,16 @@ def run_c17(ctx):
     vecs = [v for v in res.vecs if ":valid_" in v["tag"]]
     loadhist(ctx, vecs, "base-schemas", aspects, devs, extra=["-intro"])
     keep = (lambda i: i % 16 == ctx.seed % 16) if ctx.tier == "quick" else (lambda i: i % 2 == ctx.seed % 2)
-    res = vlib.run_tlc(ctx, "MCArrange", ARRANGE_CFG.format(known=tlaset(sorted(devs)), intro="TRUE", sets=tlaset(["s1", "s2", "s3", "s4", "s5", "s8"])),
+    res = vlib.run_tlc(ctx, "MCArrange", ARRANGE_CFG.format(known=tlaset(sorted(devs)), intro="TRUE", sets=tlaset(["s1", "s2", "s3", "s4", "s5", "s8", "s9"])),
                        timeout=3400, xss="64m", vec_filter=keep)
     vlib.require_clean(res, "MCArrange")
     loadhist(ctx, res.vecs, "arranged-schemas", aspects, devs, extra=["-intro"])
+    # histories of the loader state machine: the answer must follow the root through accepted and refused loads (no stale view)
+    for k, prefixes in ([(2, ["p0", "p1", "p3"])] if ctx.tier == "quick" else [(3, ["p1"]), (2, ["p0", "p2", "p3"])]):
+        res = vlib.run_tlc(ctx, "MCLoader", LOADER_CFG.format(n=k, prefixes=tlaset(prefixes), known=tlaset(sorted(devs)), intro="TRUE"), timeout=3400, xss="64m",
+                           vec_filter=(lambda i: i % 3 == ctx.seed % 3) if ctx.tier == "quick" else None)
+        vlib.require_clean(res, "MCLoader")
+        loadhist(ctx, res.vecs, "histories-%d-%s" % (k, "".join(prefixes)), aspects, devs, extra=["-intro"])
     ctx.rule = ("for every accepted schema of the base/valid-variant documents of MCRules.tla and of the arrangements of MCArrange.tla (thinned), the full "
                 "introspection request (types with kind/name/description, fields with arguments, types unrolled through ofType, isDeprecated and "
                 "deprecationReason, interfaces, possibleTypes, enum values, input fields, directives with locations and arguments, the three root types) is "
